@@ -290,6 +290,43 @@ def run_c17(ctx, MAX):
                                           {'partitions': {str(k): v for k, v in res.partitions.items()}, 'appends_checked': res.appends_checked, 'buffered_checked': res.buffered_checked, 'runs': res.runs}, cfg)
         ctx.sample({'rule': 'C17.R3', 'typestate_partitions': {str(k): v for k, v in sorted(res.partitions.items())}, 'config': cfg})
     guarded(ctx, 'C17.R3', 'C17.R3/parse_smt_literal', literal_plumbing)
+    guarded(ctx, 'C17.R3', 'C17.R3/parse_smt_literal-driver', literal_driver, 'C17.R3')
+
+
+def literal_driver(ctx, rule='C17.R3'):
+    """parse_smt_literal feeds EVERY character of the literal, in order, to accept on the one automaton, flushes what is
+    still buffered at the end and makes the string from that automaton's buffer (call log + exhaustion of the iteration)."""
+    from .. import calllog
+    for cfg in ('dev', 'rel'):
+        log = calllog.run(ctx, cfg, 'smt_strings::parse_smt_literal')
+        ip, fn = log.ip, log.fn
+        okit = len(log.iterations) >= 1
+        for it in log.iterations:
+            acc = it.named('ParsingAutomaton::accept')
+            poss = [hv for hv, ev in it.mapping if T.TYPES.get(hv) == 'usize']
+            ok = len(it.calls) == 1 and len(acc) == 1 and len(poss) == 1
+            if ok:
+                x = acc[0][1][1]
+                ok = (x == ('elem', ('chars', A(0)), poss[0]) or (x[0] == 'elem' and x[2] == poss[0] and 'chars' in T.show(x[1]) and 'a0' in T.show(x[1]))) and \
+                    ip.entails(it.state, eq(it.cur.get(poss[0], poss[0]), T.mk_add(poss[0], I(1))))
+            okit = okit and ok
+        ctx.obligation(okit)
+        (ctx.ok if okit else ctx.violation)(rule, rule + '/parse_smt_literal/each-character-in-order-is-accepted-once', fn.path, fn.site(), {'iterations': [[T.show(calllog.call_term(c))[:120] for c in it.calls] for it in log.iterations]}, cfg)
+        nret = 0
+        for o in log.outs:
+            if o.kind != 'ret':
+                continue
+            nret += 1
+            calls = o.state.calls
+            names = [c[0].rsplit('::', 1)[1] for c in calls]
+            ok = names == ['new_automaton', 'flush_pending', 'make'] and loop_exhausted(ip, o.state)
+            if ok:
+                parser = calls[1][1][0]
+                ok = calls[2][1][0] == ('fld', ('post', PA + '::flush_pending', 0, parser), 'string_so_far') and ip.to_term(o.state, o.value) == calllog.call_term(calls[2])
+            ctx.obligation(ok)
+            (ctx.ok if ok else ctx.violation)(rule, rule + '/parse_smt_literal/all-characters-consumed-then-flush-then-make-from-the-buffer', fn.path, fn.site(), {'calls': [T.show(calllog.call_term(c))[:140] for c in calls], 'leaf_constraints': pc_text(o)}, cfg)
+        ctx.obligation(nret >= 1)
+        (ctx.ok if nret >= 1 else ctx.violation)(rule, rule + '/parse_smt_literal/returns', fn.path, fn.site(), None, cfg)
 
 
 def literal_plumbing(ctx):
